@@ -233,12 +233,15 @@ def deleteGhosts (old new : Build) (t : Tree) : Except Err Tree :=
       | .ok t' => .ok t'
       | .error e => if e == .enoent ∨ isDir then .ok t else .error e) t
 
-/-- `Commit`. -/
+/-- `Commit`.  Since the repair of finding F27 the symlinks of the new build are put in place AFTER the
+    transpositions, the staged moves and the overlays (`ensureDirs` … `applyOverlays`, `ensureSymlinks`,
+    `deleteGhosts`): what a new symlink replaces may still have to be renamed or copied elsewhere. -/
 def commit (old new : Build) (w : Work) (order₁ order₂ : List Path) (t : Tree) : Except Err Tree := do
-  let t ← ensureAll new t
+  let t ← new.dirs.foldlM ensureDir t
   let t ← applyTranspositions old new w order₁ order₂ t
   let t ← applyMoves new w t
   let t ← applyOverlays new w t
+  let t ← new.symlinks.foldlM (fun t (p, d) => ensureSymlink t p d) t
   deleteGhosts old new t
 
 def treeOfBuild (b : Build) : Tree :=
